@@ -1,5 +1,6 @@
 import LhasaV.Model.Extract
 import LhasaV.Lemmas.GlobFs
+import LhasaV.Lemmas.MacProps
 /-!
 # C06 — extraction reproduces the archived tree: contents, names, times, modes, links
 -/
@@ -46,5 +47,39 @@ theorem glob_trailing_stars (g s : List UInt8) (k : Nat) :
 theorem flatten_single_component (h : Header.Hdr) (o : Opts) (hf : Header.FnOk h)
     (hi : o.usePath = false) (hw : o.extractPath = none) :
     Fs.splitPath (fileFullPath h o) = [h.filename.getD []] := GlobFs.full_path_flat_single h o hf hi hw
+
+open Reader in
+/-- **MacBinary envelope stripped.** A member written by MacLHA (OS type 'm') whose decoded content
+is a recognised 128-byte MacBinary header followed by the data fork, the resource fork and
+padding: checking or extracting it hands out exactly the data fork — or the resource fork when the
+data fork is empty. -/
+theorem macbinary_strip {s : Reader.St} {c : HObj} {d : Dec} {info : Nat × Nat × Nat}
+    (ht : s.currType = CurrType.normal) (hc : s.curr = some c) (hos : c.h.osType = 0x6d)
+    (hm : c.h.method ≠ "-lhd-".toUTF8.toList)
+    (hd : decoderFor (methodName c.h) = some d) (hi : decoderInfo (methodName c.h) = some info)
+    (hdr data res pad : List UInt8)
+    (hfull : MacProps.innerBytes s c d = hdr ++ data ++ res ++ pad) (hl : hdr.length = 128)
+    (hmac : isMacBinaryHeader hdr c.h = true)
+    (hdl : data.length = be32 hdr 0x53) (hrl : res.length = be32 hdr 0x57) :
+    (check s).1.2 = (if 0 < be32 hdr 0x53 then data else res) ∧
+    (extract s true).1.2 = (if 0 < be32 hdr 0x53 then data else res) :=
+  MacProps.macbinary_strip ht hc hos hm hd hi hdr data res pad hfull hl hmac hdl hrl
+
+open Reader in
+/-- **… and otherwise left alone**: a member of a Mac archive shorter than 128 bytes, or whose first
+128 bytes are not a MacBinary header for this member (name, lengths, time stamp, zero fields —
+`mac_header_spec`), is handed out unchanged. -/
+theorem macbinary_keep {s : Reader.St} {c : HObj} {d : Dec} {info : Nat × Nat × Nat}
+    (ht : s.currType = CurrType.normal) (hc : s.curr = some c) (hos : c.h.osType = 0x6d)
+    (hm : c.h.method ≠ "-lhd-".toUTF8.toList)
+    (hd : decoderFor (methodName c.h) = some d) (hi : decoderInfo (methodName c.h) = some info)
+    (hno : c.h.length < 128 ∨ (128 ≤ (MacProps.innerBytes s c d).length ∧
+            isMacBinaryHeader ((MacProps.innerBytes s c d).take 128) c.h = false)) :
+    (check s).1.2 = MacProps.innerBytes s c d ∧ (extract s true).1.2 = MacProps.innerBytes s c d :=
+  MacProps.macbinary_keep ht hc hos hm hd hi hno
+
+/-- what "recognised" means, field by field (the policy table of macbinary.c) -/
+theorem mac_header_spec (d : List UInt8) (h : Header.Hdr) :
+    Reader.isMacBinaryHeader d h = true ↔ MacProps.MacHeaderOK d h := MacProps.isMacBinaryHeader_spec d h
 
 end LhasaV.Props.C06
